@@ -38,7 +38,7 @@ from bounded.reftree import from_struct
 
 MODULE = "checks.bounded_C08"
 GRAMMAR_ORDER = ["assgn", "rightrec", "leftrec", "nullable", "ambig", "num", "multichar", "xmlish", "csvish", "altstart", "wide"]
-TREE_CAP = {"quick": 40, "thorough": None}
+TREE_CAP = {"quick": 32, "thorough": None}
 CASE_TIMEOUT = {"quick": 40, "thorough": 400}  # CPU seconds per pair
 
 
@@ -175,6 +175,7 @@ def run(rep, tier, seed):
     rep.assume("ref_eval reads the Formula objects parse_isla builds for the CORE text (field access only); core ISLa needs no translation, so the dependency is on the ANTLR front end only")
     rep.assume("excluded (the specification gives no translation): XPath heads that are the constant / a numeric variable / a match-expression variable; XPath on a quantifier that already has a match expression; an XPath prefix used and extended; nested nameless quantifiers over one type; alternatives with { } [ ] \" \\ in terminals; XPath steps no alternative offers; unparenthesised mixes of +,- with *,div,mod and chains of implies/iff/xor (associativity / arithmetic precedence are not documented)")
     rep.assume("multi-step child chains are not generated on the ambiguous grammar `ambig`: the flat match-expression text of the documented translation is itself ambiguous there; several XPath expressions on one variable only when the same alternatives offer all of them")
+    rep.assume("str.to.int is applied to tree variables only on the numeral grammar (all values of the variable are numerals) and to numeric variables; str.to.int on non-numerals is outside the property")
     rep.assume("root symbol <start> for all grammars (a `const` declaration crashes parse_isla)")
     rep.exhaustive = False
 
